@@ -37,7 +37,7 @@ PROPS = {
                 state=any_of(acct_lines({ESCROW}), kinds("RQ", "AI", "EF")), effects=eff("transfer", touching={ESCROW}), errnames=False),
     "C02": dict(profiles=["money", "mixed", "lifecycle"], monitors=["settlement", "batchDebit", "conservation", "escrowBacked", "respondLaw"],
                 state=kinds("A", "RQ", "AI", "EF", "OE", "RS"), effects=eff("transfer", "slash"), errnames=False),
-    "C03": dict(profiles=["bindings", "mixed", "modsvc"], monitors=["depositBacked", "depositLaw", "supplyLaw", "conservation"],
+    "C03": dict(profiles=["bindings", "mixed", "modsvc", "genesis"], monitors=["depositBacked", "depositLaw", "supplyLaw", "conservation"],
                 state=kinds("A", "B", "S"), effects=eff("transfer", "slash"), errnames=True),
     "C04": dict(profiles=["bindings", "money"], monitors=["slashLaw", "supplyLaw", "depositBacked"],
                 state=kinds("B", "S"), effects=eff("slash"), errnames=False),
@@ -59,7 +59,7 @@ PROPS = {
                 state=kinds("CX", "RQ", "RS"), effects=eff("respcb", "statecb", "ev"), errnames=False),
     "C13": dict(profiles=["money", "mixed", "genesis"], monitors=["ownerEarnings", "withdrawLaw", "conservation"],
                 state=kinds("EF", "OE", "WD", "A", "OW"), effects=eff("transfer"), errnames=True),
-    "C14": dict(profiles=["bindings", "modsvc"], monitors=["minDep", "slashLaw"],
+    "C14": dict(profiles=["bindings", "modsvc", "genesis"], monitors=["minDep", "slashLaw"],
                 state=kinds("B", "PR"), effects=eff("slash"), errnames=True),
     "C15": dict(profiles=["bindings", "authority", "genesis"], monitors=["indexes", "stability", "queryExact"],
                 state=kinds("Q", "D", "B", "OB", "OW", "PO", "PR"), effects=eff(), errnames=True),
